@@ -27,6 +27,11 @@ CHECKS = {
          "For each in-memory stack (mem, frag, mbapp with and without fast path, string/varint/uintN mux, multiswarm, mapswarm, wlswarm, p2pkeswarm and nestings) two sender threads (same node or different nodes) Tell self-describing payloads of boundary sizes (0, 1, part-1, part, part+1, 2*part, MTU) as two-slice IOVecs and overwrite their buffers as soon as Tell returns; receiver callbacks hold the message across scheduling points, re-check it and scribble over it. Every schedule within the preemption bound is executed on the instrumented real code and every delivered (Src,Dst,Payload) must equal a told message of that source addressed to that node.",
          "Payload contents are patterns, not arbitrary bytes; for p2pke stacks the handshake runs deterministically before the explored phase; UDP/QUIC/SSH stacks are outside the scheduler (not covered by this check).",
          "5/C01", "gosched"),
+ "C10": ("model_checking",
+         "exhaustive enumeration (deviation-bounded DFS under the controlled scheduler) of fragment delivery orders, duplications and losses with the harness as the inner transport of the real fragswarm/mbapp",
+         "Genuine fragments of 2-4 messages (2 and 3 parts, equal part counts, same ids from different sources, several ids from one source) are captured from real sender instances; an adversary thread then delivers them to a real receiver instance in every order (quick) or every order within a reorder budget (largest thorough configurations), duplicating or dropping up to 1-3 fragments, with 1 or 2 receive workers; every payload the receiver yields must be byte-identical to a message of the source it is attributed to and a message that lost a fragment must never be delivered.",
+         "Fragments are genuine; crafted inconsistent fragments belong to C08. Inner MTUs 40/64/115.",
+         "5/C10", "gosched"),
  "C11": ("model_checking",
          "controlled-scheduler exploration of concurrent Asks, handler errors, oversized responses, close and cancellation on every ask-capable in-memory stack",
          "1-2 askers with 8-byte buffers and unique requests, 1-2 ServeAsk threads whose handler answers with tag-derived bytes of lengths 0/1/cap-1/cap/cap+1 or a negative value, plus a closer of the destination, a canceller and virtual deadlines; all schedules within the preemption bound; a successful Ask must return exactly the bytes one of its own handler invocations wrote (handler saw exactly the request and the asker's address), every other case must be an error, and no Ask may stay blocked once its context ended.",
